@@ -508,6 +508,113 @@ def serve_facts():
     return m.group(1)
 
 
+# ---------------------------------------------------------------------------------------------
+# The paths between Builder.finalize and the process exit code
+# ---------------------------------------------------------------------------------------------
+
+RUN_ONCE_EXPECTED = [
+    "await wait_for_any_event(self.resume, stop_event)",
+    "if stop_event.is_set():\n    return False",
+    "self.resume.clear()",
+    "await self.job_loop()",
+    "await self.finalize()",
+    "return True",
+]
+BUILD_LOOP_EXPECTED = ("while await builder.run_once(stop_event):\n    if watcher is None:\n        stop_event.set()\n"
+                       "    else:\n        watcher.start_watching.set()")
+
+
+def _stores_of(tree, attr):
+    out = []
+    for n in ast.walk(tree):
+        if isinstance(n, (ast.Assign, ast.AugAssign, ast.AnnAssign)):
+            for t in (n.targets if isinstance(n, ast.Assign) else [n.target]):
+                for x in ast.walk(t):
+                    if isinstance(x, ast.Attribute) and x.attr == attr and isinstance(x.ctx, ast.Store):
+                        out.append(ast.unparse(n))
+    return out
+
+
+def exit_path_facts(rc_names):
+    """Structure facts (fail closed) about how a phase's code reaches the process exit status.
+
+    * `Builder.returncode` has the attrs default ReturnCode.<X> (what serve() returns when no phase ran):
+      regenerated as builder_default_rc;
+    * `Builder.run_once` = wait, (stop: no phase), clear, job_loop, finalize, True: every phase that
+      starts ends with finalize() unless job_loop raises;
+    * `build_loop` runs phases until stop: without a watcher exactly one;
+    * no statement outside builder.py stores a `.returncode` of the builder (director.py, tui.py,
+      finalize.py, scheduler.py, watcher.py are scanned for attribute stores);
+    * `_run_tasks`: the gather sits in try/finally, the finally block neither returns nor touches
+      returncode (an exception of a task propagates out of serve());
+    * `serve`: nothing between `_run_tasks` and the final return touches returncode;
+    * `async_main`: the `except Exception` handler around serve() re-raises (bare `raise` last), the
+      finally block has no return: an exception in serve() ends the process through the interpreter
+      (exit status 1 = ReturnCode.INTERNAL), never through a build code.
+    """
+    btree = parse_module(f"{CORE}/builder.py")
+    default = None
+    for n in ast.walk(btree):
+        if isinstance(n, ast.AnnAssign) and isinstance(n.target, ast.Name) and n.target.id == "returncode":
+            m = re.fullmatch(r"attrs\.field\(init=False, default=ReturnCode\.([A-Z]+)\)", ast.unparse(n.value))
+            if not m or m.group(1) not in rc_names:
+                raise TranslatorError(f"Builder.returncode: field definition changed: {ast.unparse(n.value)}")
+            default = m.group(1)
+    if default is None:
+        raise TranslatorError("Builder.returncode field not found")
+    ro = find_function(btree, "run_once", cls="Builder")
+    got = [ast.unparse(s_) for s_ in body_without_docstring(ro)]
+    if got != RUN_ONCE_EXPECTED:
+        raise TranslatorError(f"Builder.run_once changed: {got}")
+    dtree = parse_module(f"{CORE}/director.py")
+    bl = find_function(dtree, "build_loop")
+    got = "\n".join(ast.unparse(s_) for s_ in body_without_docstring(bl))
+    if got != BUILD_LOOP_EXPECTED:
+        raise TranslatorError(f"director.build_loop changed: {got}")
+    for rel in ("director.py", "tui.py", "finalize.py", "scheduler.py", "watcher.py", "executor.py"):
+        tree = dtree if rel == "director.py" else parse_module(f"{CORE}/{rel}")
+        st = [x for x in _stores_of(tree, "returncode")]
+        if st:
+            raise TranslatorError(f"{rel}: stores a .returncode attribute: {st}")
+    rt = find_function(dtree, "_run_tasks")
+    tries = [n for n in ast.walk(rt) if isinstance(n, ast.Try)]
+    if len(tries) != 1 or [ast.unparse(s_) for s_ in tries[0].body] != ["await asyncio.gather(*coroutines)"] \
+            or tries[0].handlers or not tries[0].finalbody:
+        raise TranslatorError("_run_tasks: the gather is no longer `try: await asyncio.gather(*coroutines) finally: ...`")
+    fin = ast.Module(body=tries[0].finalbody, type_ignores=[])
+    if _has_return(fin) or _mentions_attr(fin, "returncode"):
+        raise TranslatorError("_run_tasks: the finally block returns or touches returncode")
+    if "await handler.builder.stop()" not in [ast.unparse(s_) for s_ in tries[0].finalbody]:
+        raise TranslatorError("_run_tasks: builder.stop() is no longer awaited on the way out")
+    sv = find_function(dtree, "serve")
+    body = body_without_docstring(sv)
+    idx = [k for k, s_ in enumerate(body) if ast.unparse(s_).startswith("await _run_tasks(")]
+    if len(idx) != 1:
+        raise TranslatorError("serve: expected exactly one `await _run_tasks(...)` statement")
+    tail = body[idx[0] + 1:]
+    if not isinstance(tail[-1], ast.Return) or any(_has_return(ast.Module(body=[s_], type_ignores=[])) for s_ in tail[:-1]):
+        raise TranslatorError("serve: return structure after _run_tasks changed")
+    for s_ in tail[:-1]:
+        if _mentions_attr(s_, "returncode"):
+            raise TranslatorError(f"serve: statement after _run_tasks touches returncode: {ast.unparse(s_)[:60]}")
+    am = find_function(dtree, "async_main")
+    ok = False
+    for n in ast.walk(am):
+        if isinstance(n, ast.Try) and any("await serve(" in ast.unparse(s_) for s_ in n.body):
+            hs = n.handlers
+            if len(hs) != 1 or ast.unparse(hs[0].type) != "Exception":
+                raise TranslatorError("async_main: handlers around serve() changed")
+            last = hs[0].body[-1]
+            if not (isinstance(last, ast.Raise) and last.exc is None):
+                raise TranslatorError("async_main: the handler around serve() no longer re-raises")
+            if _has_return(ast.Module(body=hs[0].body + n.finalbody, type_ignores=[])):
+                raise TranslatorError("async_main: return inside the handler / finally around serve()")
+            ok = True
+    if not ok:
+        raise TranslatorError("async_main: try around serve() not found")
+    return default
+
+
 TUI_EXPECTED = (
     "if wait_status < 0:\n"
     "    signal_name = signal.Signals(-wait_status).name\n"
@@ -615,6 +722,7 @@ def generate():
         conds[fname] = cs
     guards, cleanup = finalize_facts()
     early = serve_facts()
+    builder_default = exit_path_facts(rc)
     tui_facts()
     fps, order = pending_fingerprints()
 
@@ -656,6 +764,8 @@ def generate():
         "Definition finalize_cleanup : list str := [" + "; ".join(coq_str(c) for c in cleanup) + "].",
         f"(* serve(): early return in the GraphError handler of reconcile_targets() *)",
         f"Definition serve_invalid_target_rc : N := rc_{early}.",
+        "(* Builder.returncode before any phase has been finalized (attrs default) *)",
+        f"Definition builder_default_rc : N := rc_{builder_default}.",
         "(* pending.py: order of the INSERT statements executed by _analyze_pending *)",
         "Definition analyze_exec_order : list str := [" + "; ".join(coq_str(o) for o in order) + "].",
         "(* pending.py: fingerprints of the statement templates *)",
